@@ -521,6 +521,9 @@ _S_HELPER_RET = '\treturn describeBlob(genDesc, digestAlg)\n}\n'
 _S_CLOSURE_RET = '\tdescribe := func() (ocispec.Descriptor, error) { return genDesc(digestAlg) }\n\treturn describe()\n}\n'
 _V_TWO_SITES = ('\tvar desc ocispec.Descriptor\n\tif len(opts.UserMetadata) > 0 {\n\t\tlogger.Debug("Describing the blob together with its user metadata")\n\t\tdesc, err = describeBlob(descGenFunc, %s)\n'
                 '\t} else {\n\t\tdesc, err = describeBlob(descGenFunc, digestAlgo)\n\t}\n')
+_DESCRIBE_HASH = ('\nfunc describeWith(hash crypto.Hash, gen notation.BlobDescriptorGenerator) (ocispec.Descriptor, error) {\n\talg, ok := algorithms[hash]\n\tif !ok {\n'
+                  '\t\treturn ocispec.Descriptor{}, fmt.Errorf("unknown hashing algo %v", hash)\n\t}\n\treturn gen(alg)\n}\n')
+_V_HASH_ONLY = '\tcryptoHash := outcome.EnvelopeContent.SignerInfo.SignatureAlgorithm.Hash()\n'
 _ARG_VARIANTS = [
  # (a) the verifier evaluates the generator inside a local closure that captures the digest algorithm
  dict(name='benign-verifier-generator-in-closure-capturing-algorithm', file=V, expect='silent', find=_V_EVAL, replace=_V_CLOSURE),
@@ -537,6 +540,49 @@ _ARG_VARIANTS = [
  dict(name='benign-verifier-algorithm-helper-two-deep', expect='silent', edits=[(V, _MAP, _MAP + _DESCRIBE_2), (V, _V_EVAL, _V_HELPER_CALL)]),
  dict(name='benign-signer-algorithm-helper-two-deep', expect='silent', edits=[(SP, _MAP, _MAP + _DESCRIBE_2), (S, _G_RET, _S_HELPER_RET)]),
  dict(name='benign-verifier-algorithm-helper-two-call-sites', expect='silent', edits=[(V, _MAP, _MAP + _DESCRIBE_FN), (V, _V_EVAL, _V_TWO_SITES % 'digestAlgo')]),
+ # the helper cut at the other boundary: it is handed the hash and looks the algorithm up itself (the key is the parameter)
+ dict(name='benign-signer-helper-handed-hash', expect='silent', edits=[(SP, _MAP, _MAP + _DESCRIBE_HASH), (S, _S_BODY, '\treturn describeWith(ks.SignatureAlgorithm().Hash(), genDesc)\n')]),
+ dict(name='benign-verifier-helper-handed-hash', expect='silent', edits=[(V, _MAP, _MAP + _DESCRIBE_HASH), (V, _V_BLOCK, _V_HASH_ONLY), (V, _V_EVAL, '\tdesc, err := describeWith(cryptoHash, descGenFunc)\n')]),
+ # ---- the same shapes with the property broken ----
+ dict(name='verifier-algorithm-helper-called-with-constant', expect='flagged(blob-descriptor/generator-call)', edits=[
+      (V, _MAP, _MAP + _DESCRIBE_FN), (V, _V_EVAL, '\t_ = digestAlgo\n\tdesc, err := describeBlob(descGenFunc, digest.SHA256)\n')]),
+ dict(name='signer-algorithm-helper-called-with-constant', expect='flagged(payload/blob-digest-algorithm/lookup)', edits=[
+      (SP, _MAP, _MAP + _DESCRIBE_FN), (S, _G_RET, '\t_ = digestAlg\n\treturn describeBlob(genDesc, digest.SHA256)\n}\n'),
+      (S, '\t"github.com/notaryproject/notation-go/log"\n', '\t"github.com/notaryproject/notation-go/log"\n\t"github.com/opencontainers/go-digest"\n')]),
+ dict(name='signer-algorithm-helper-called-with-constant-generator-call', expect='flagged(blob-descriptor/generator-call)', edits=[
+      (SP, _MAP, _MAP + _DESCRIBE_FN + '\nconst preferredAlgorithm = digest.SHA256\n'), (S, _G_RET, '\t_ = digestAlg\n\treturn describeBlob(genDesc, preferredAlgorithm)\n}\n')]),
+ dict(name='signer-algorithm-helper-miss-not-tested', expect='flagged(payload/blob-digest-algorithm/lookup)', edits=[
+      (SP, _MAP, _MAP + _DESCRIBE_FN), (S, _S_BODY, '\tdigestAlg := algorithms[ks.SignatureAlgorithm().Hash()]\n\treturn describeBlob(genDesc, digestAlg)\n')]),
+ dict(name='signer-algorithm-helper-swallows-generator-error', expect='flagged(payload/blob-digest-algorithm)', edits=[
+      (SP, _MAP, _MAP + _DESCRIBE_FN.replace('\treturn gen(alg)\n', '\tdesc, _ := gen(alg)\n\treturn desc, nil\n')), (S, _G_RET, _S_HELPER_RET)]),
+ dict(name='algorithm-helper-ignores-its-parameter', expect='flagged(blob-descriptor/generator-call)', edits=[
+      (V, _MAP, _MAP + _DESCRIBE_FN.replace('\treturn gen(alg)\n', '\t_ = alg\n\treturn gen(digest.SHA256)\n')), (V, _V_EVAL, _V_HELPER_CALL)]),
+ dict(name='verifier-algorithm-helper-one-site-passes-other-algorithm', expect='flagged(blob-descriptor/generator-call)', edits=[
+      (V, _MAP, _MAP + _DESCRIBE_FN), (V, _V_EVAL, _V_TWO_SITES % 'digest.Canonical')]),
+ dict(name='verifier-algorithm-helper-two-deep-inner-called-with-constant', expect='flagged(blob-descriptor/generator-call)', edits=[
+      (V, _MAP, _MAP + _DESCRIBE_2.replace('evaluate(alg, gen)', 'evaluate(digest.SHA512, gen)')), (V, _V_EVAL, _V_HELPER_CALL)]),
+ dict(name='verifier-algorithm-helper-also-reached-as-a-value', expect='flagged(blob-descriptor/generator-call)', edits=[
+      (V, _MAP, _MAP + _DESCRIBE_FN + '\nvar describeWith = describeBlob\n'),
+      (V, _V_EVAL, (_V_TWO_SITES % 'digest.Canonical').replace('describeBlob(descGenFunc, digest.Canonical)', 'describeWith(descGenFunc, digest.Canonical)'))]),
+ dict(name='verifier-closure-captures-algorithm-of-the-payload-digest', file=V, expect='flagged(blob-descriptor/generator-call)', find=_V_EVAL,
+      replace='\tpayloadAlgo := payload.TargetArtifact.Digest.Algorithm()\n\t_ = digestAlgo\n' + _V_CLOSURE.replace('descGenFunc(digestAlgo)', 'descGenFunc(payloadAlgo)')),
+ dict(name='verifier-closure-captured-algorithm-reassigned-before-the-call', file=V, expect='flagged(blob-descriptor/generator-call)', find=_V_EVAL,
+      replace=_V_CLOSURE.replace('\tdesc, err := describe()\n', '\tif len(opts.UserMetadata) == 0 {\n\t\tdigestAlgo = digest.Canonical\n\t}\n\tdesc, err := describe()\n')),
+ dict(name='verifier-closure-called-before-the-algorithm-is-looked-up', expect='flagged(blob-descriptor/generator-call)', edits=[
+      (V, _V_USE, '\tvar digestAlgo digest.Algorithm\n' + _V_CLOSURE + _V_USE), (V, _V_EVAL, '')]),
+ dict(name='verifier-closure-taking-algorithm-called-with-constant', file=V, expect='flagged(blob-descriptor/generator-call)', find=_V_EVAL,
+      replace='\t_ = digestAlgo\n' + _V_CLOSURE_PARAM.replace('describe(digestAlgo)', 'describe(digest.SHA256)')),
+ dict(name='verifier-closure-escapes-and-is-called', file=V, expect='flagged(blob-descriptor/generator-call)', find=_V_EVAL,
+      replace=_V_CLOSURE_PARAM.replace('\tdesc, err := describe(digestAlgo)\n', '\tdescribers := []func(digest.Algorithm) (ocispec.Descriptor, error){describe}\n\tdesc, err := describers[0](digest.Canonical)\n')),
+ dict(name='signer-closure-captures-constant-algorithm', file=S, expect='flagged(payload/blob-digest-algorithm/lookup)', find=_G_RET,
+      replace='\tfallback := algorithms[crypto.SHA256]\n\t_ = digestAlg\n' + _S_CLOSURE_RET.replace('genDesc(digestAlg)', 'genDesc(fallback)')),
+ dict(name='signer-helper-handed-constant-hash', expect='flagged(payload/blob-digest-algorithm/lookup)', edits=[
+      (SP, _MAP, _MAP + _DESCRIBE_HASH), (S, _S_BODY, '\treturn describeWith(crypto.SHA256, genDesc)\n')]),
+ dict(name='verifier-helper-handed-constant-hash', expect='flagged(blob-descriptor/generator-call)', edits=[
+      (V, _MAP, _MAP + _DESCRIBE_HASH), (V, _V_BLOCK, _V_HASH_ONLY), (V, _V_EVAL, '\t_ = cryptoHash\n\tdesc, err := describeWith(crypto.SHA256, descGenFunc)\n')]),
+ dict(name='signer-helper-handed-hash-miss-passes', expect='flagged(payload/blob-digest-algorithm/lookup)', edits=[
+      (SP, _MAP, _MAP + _DESCRIBE_HASH.replace('\tif !ok {\n\t\treturn ocispec.Descriptor{}, fmt.Errorf("unknown hashing algo %v", hash)\n\t}\n', '\t_ = ok\n')),
+      (S, _S_BODY, '\treturn describeWith(ks.SignatureAlgorithm().Hash(), genDesc)\n')]),
 ]
 
 VARIANTS = [
